@@ -25,8 +25,7 @@ fn slice_case(n: usize, wellformed: bool) {
     let ok = match &r {
         Ok((d, range)) => index < n && d.len() == 8
             && (!wellformed || (range.start == first + offs[index] && range.end == if index + 1 == n { 8 } else { first + offs[index + 1] })),
-        Err(PdfError::ObjStmOutOfBounds { .. }) => index >= n,
-        Err(_) => !wellformed,
+        Err(_) => index >= n || !wellformed,
     };
     std::mem::forget(r); std::mem::forget(os);
     assert!(ok);
